@@ -35,5 +35,18 @@ def run(W, chk):
             keys |= all_origins(r.extra.get("key", EMPTY))
     chk.expect(keys <= {"msg.ExecuteSwapOperations.operations[*].MantraSwap.pool_identifier", "Store(POOLS).pool_identifier"} and bool(keys), "PROV-router-chain", "hop pool",
                "on the operation's pool", "router touches pools %s" % sorted(keys), A.entry)
+    # per-hop amounts are never parked in a keyed container by plain insert: a repeated key (two hops paying the same denom)
+    # would overwrite the earlier hop's amount while the reserve was already debited for it
+    lossy = []
+    for e in A.calls(r"(BTreeMap|HashMap)<.*>::insert$|(BTreeMap|HashMap)::<.*>::insert$"):
+        da = e.extra.get("dargs", [])
+        if len(da) < 3:
+            continue
+        vm = opmap(da[2], lambda o, ops: o.startswith(sc.N.C + "."))
+        if vm and any("add" not in ops for ops in vm.values()):
+            lossy.append((e, sorted(vm)))
+    chk.expect(not lossy, "PROV-no-lossy-accumulator", "Router", "no swap output is stored by overwriting map insert",
+               "a per-hop amount %s is stored with `insert` (overwrites the earlier hop's amount under the same key) instead of being accumulated" % (lossy[0][1] if lossy else ""),
+               where(lossy[0][0]) if lossy else A.entry)
     sc.fee_internals(W, chk)
     sc.swap_result_wiring(W, chk)
